@@ -26,7 +26,8 @@ RULE = ("random histories of 1-40 public mutating calls (constructor with/withou
         "attribute); after EVERY operation every query of DESIGN 3b is compared for every node of the universe + one absent "
         "node and filters none / random size / random order / both (all sizes 0-6, orders 0-5 at the end of the history). "
         "distinct = canonical rank-level text of the history; non-trivial = at least one accepted removal AND one insertion of a "
-        "(source,target) pair that is or was present")
+        "(source,target) pair that is or was present; plus the EXHAUSTIVE set of all histories of <= 2 (quick) / <= 3 (thorough) "
+        "calls over an 18-call alphabet on 3 nodes, weighted and unweighted (bounded exploration supporting the tie)")
 ASSUMPTIONS = ["hyperedges have disjoint, duplicate-free, non-empty source and target sets (the property's quantifier)",
                "labels are mutually comparable and reach the model as their rank in the sorted universe",
                "weights are multiples of 1/4 (exact in binary64), metadata values come from a fixed JSON-like pool",
@@ -914,7 +915,7 @@ def gen_history(rng):
         elif r < 0.36:
             es = [an_edge(True) for _ in range(rng.randint(0, 3))]
             ws = None
-            if rng.random() < (0.6 if wtd else 0.08):
+            if rng.random() < (0.6 if wtd else 0.2):
                 ws = [rng.choice([0, 2, 4, 6, 8]) for _ in es]
                 if mal:
                     ws = ws + [4]
@@ -939,7 +940,7 @@ def gen_history(rng):
         elif r < 0.72:
             cmds.append(["addnodes", sl, [rng.randrange(U) for _ in range(rng.randint(0, 3))]])
         elif r < 0.77:
-            w = rng.choice([0, 2, 4, 6, 8]) if wtd or mal else 4
+            w = rng.choice([0, 2, 4, 6, 8]) if wtd or mal or rng.random() < 0.3 else 4
             cmds.append(["setw", sl, an_edge(False), w])
         elif r < 0.80:
             cmds.append(["setnm", sl, rng.randrange(U), gen_meta(rng, False)])
@@ -1167,7 +1168,29 @@ def shrink(ctx, drv, hist, kind, rng_seed):
     return cur, (p[0][1] if p else None)
 
 
+class Hang(Exception):
+    pass
+
+
+def _on_alarm(signum, frame):
+    import signal
+    signal.alarm(10)            # re-arm: a mutated implementation may loop in several calls
+    raise Hang("implementation call did not return")
+
+
 def check_history(ctx, drv, hist, seed):
+    import random
+    import signal
+    old = signal.signal(signal.SIGALRM, _on_alarm)
+    signal.alarm(30)            # a history normally takes < 0.2 s; a hanging call becomes a `rej` observation
+    try:
+        return _check_history(ctx, drv, hist, seed)
+    finally:
+        signal.alarm(0)
+        signal.signal(signal.SIGALRM, old)
+
+
+def _check_history(ctx, drv, hist, seed):
     import random
     problems, stats = run_history(ctx, drv, hist, random.Random(seed))
     key = json.dumps([hist["U"], [encode(c) for c in hist["cmds"]]])
@@ -1193,9 +1216,53 @@ def check_history(ctx, drv, hist, seed):
     return problems
 
 
+EXH_ALPHABET = [
+    ["addedge", 0, [[0], [1]], None, None],
+    ["addedge", 0, [[1], [0]], None, None],                 # the reverse hyperedge
+    ["addedge", 0, [[1, 0], [2]], None, [[2, 3]]],
+    ["addedge", 0, [[0], [2, 1]], None, None],              # collapses onto ((0,),(1,)) when node 2 is removed
+    ["addedge", 0, [0, [1]], 8, [[3, 4]]],                  # bare-node source, weight 2 (rejected when unweighted)
+    ["rmedge", 0, [[0], [1]]],
+    ["rmedge", 0, [[0, 1], [2]]],
+    ["rmnode", 0, 2, True],
+    ["rmnode", 0, 2, False],
+    ["rmnode", 0, 0, True],
+    ["rmnode", 0, 1, False],
+    ["addnode", 0, 2, [[4, 5]]],
+    ["setw", 0, [[0], [1]], 6],
+    ["setnm", 0, 0, [[2, 6]]],
+    ["attre", 0, [[0], [1]], 2, 3],
+    ["dele", 0, [[0], [1]], 2],
+    ["clear", 0],
+    ["addedges", 0, [[[0], [1]], [[2], [0, 1]]], [4, 2], None],
+]
+
+
+def exhaustive(ctx, drv, maxlen):
+    """bounded exploration supporting the tie: EVERY history of at most `maxlen` calls over an 18-call alphabet on a
+    3-node universe, weighted and unweighted (all queries, all filters, after every call)"""
+    import itertools
+    import copy as _copy
+    n = 0
+    for weighted in (False, True):
+        for length in range(1, maxlen + 1):
+            for combo in itertools.product(range(len(EXH_ALPHABET)), repeat=length):
+                cmds = [["new", 0, weighted, None, None, None, None, None]] + [_copy.deepcopy(EXH_ALPHABET[i]) for i in combo]
+                hist = {"U": 3, "kind": "int", "cmds": cmds, "pool": [[[0], [1]], [[0, 1], [2]]]}
+                check_history(ctx, drv, hist, 7 * n + 1)
+                n += 1
+                if ctx.too_many(3):
+                    return n
+                tl = ctx.time_left()
+                if tl is not None and tl < 8:
+                    ctx.count("exhaustive_stopped_early_by_budget")
+                    return n
+    return n
+
+
 def run(ctx):
     drv = ctx.driver() if ctx.model_available else None
-    n = ctx.scale(260, 7000)
+    n = ctx.scale(230, 6000)
     for i in range(n):
         hist = gen_history(ctx.rng)
         check_history(ctx, drv, hist, ctx.rng.randrange(1 << 30))
@@ -1205,6 +1272,10 @@ def run(ctx):
         if tl is not None and tl < 8:
             ctx.count("stopped_early_by_budget")
             break
+    if not ctx.too_many(3):
+        k = ctx.scale(2, 3)
+        ctx.extra["exhaustive_histories"] = exhaustive(ctx, drv, k)
+        ctx.extra["exhaustive_scope"] = f"all histories of <= {k} calls over an {len(EXH_ALPHABET)}-call alphabet, 3 nodes, both weightedness"
     if drv is not None:
         ctx.extra["model_lines_note"] = "one `dig` line carries every query for every node and filter of that step"
 
